@@ -20,21 +20,20 @@ def insertAdd : List (Nat × α) → Nat → α → List (Nat × α)
   | [], p, v => [(p, v)]
   | (k, x) :: t, p, v => if k = p then (k, x + v) :: t else (k, x) :: insertAdd t p v
 
-/-- position of key `p` (counted from `off`), or -1: what `pix_check[p]` holds -/
-def posOf : List (Nat × α) → Nat → Nat → Int
+/-- position of key `p` in a key list (counted from `off`), or -1: what `pix_check[p]` holds -/
+def posOf : List Nat → Nat → Nat → Int
   | [], _, _ => -1
-  | (k, _) :: t, p, off => if k = p then (off : Int) else posOf t p (off + 1)
+  | k :: t, p, off => if k = p then (off : Int) else posOf t p (off + 1)
 
 /-- sum of the values stored under key `p` -/
 def lookupSum (al : List (Nat × α)) (p : Nat) : α :=
   ((al.filter fun e => e.1 == p).map (·.2)).sum
 
-theorem posOf_range (al : List (Nat × α)) (p off : Nat) :
-    posOf al p off = -1 ∨ ((off : Int) ≤ posOf al p off ∧ posOf al p off < off + al.length) := by
-  induction al generalizing off with
+theorem posOf_range (ks : List Nat) (p off : Nat) :
+    posOf ks p off = -1 ∨ ((off : Int) ≤ posOf ks p off ∧ posOf ks p off < off + ks.length) := by
+  induction ks generalizing off with
   | nil => left; rfl
-  | cons a t ih =>
-    obtain ⟨k, x⟩ := a
+  | cons k t ih =>
     unfold posOf
     by_cases hk : k = p
     · right; simp [hk]
@@ -46,12 +45,11 @@ theorem posOf_range (al : List (Nat × α)) (p off : Nat) :
         push_cast at h ⊢
         omega
 
-theorem posOf_shift (al : List (Nat × α)) (p off : Nat) :
-    posOf al p off = if posOf al p 0 = -1 then -1 else posOf al p 0 + off := by
-  induction al generalizing off with
+theorem posOf_shift (ks : List Nat) (p off : Nat) :
+    posOf ks p off = if posOf ks p 0 = -1 then -1 else posOf ks p 0 + off := by
+  induction ks generalizing off with
   | nil => simp [posOf]
-  | cons a t ih =>
-    obtain ⟨k, x⟩ := a
+  | cons k t ih =>
     unfold posOf
     by_cases hk : k = p
     · simp [hk]
@@ -67,16 +65,29 @@ theorem posOf_shift (al : List (Nat × α)) (p off : Nat) :
           push_cast
           omega
 
-theorem posOf_miss_iff (al : List (Nat × α)) (p off : Nat) :
-    posOf al p off = -1 ↔ ∀ e ∈ al, e.1 ≠ p := by
-  induction al generalizing off with
+theorem posOf_miss_iff (ks : List Nat) (p off : Nat) :
+    posOf ks p off = -1 ↔ ∀ k ∈ ks, k ≠ p := by
+  induction ks generalizing off with
   | nil => simp [posOf]
-  | cons a t ih =>
-    obtain ⟨k, x⟩ := a
+  | cons k t ih =>
     unfold posOf
     by_cases hk : k = p
     · simp [hk]
     · simp [hk, ih (off + 1)]
+
+theorem posOf_append_singleton (ks : List Nat) (p q off : Nat) :
+    posOf (ks ++ [p]) q off
+      = if posOf ks q off = -1 then (if p = q then ((off + ks.length : Nat) : Int) else -1)
+        else posOf ks q off := by
+  induction ks generalizing off with
+  | nil => simp [posOf]
+  | cons k t ih =>
+    simp only [List.cons_append, posOf]
+    by_cases hk : k = q
+    · simp [hk]
+    · simp only [hk, if_false, ih (off + 1), List.length_cons]
+      have : off + 1 + t.length = off + (t.length + 1) := by omega
+      rw [this]
 
 /-- on a miss the new slot goes to the end -/
 theorem insertAdd_miss (al : List (Nat × α)) (p : Nat) (v : α) (h : ∀ e ∈ al, e.1 ≠ p) :
@@ -91,14 +102,14 @@ theorem insertAdd_miss (al : List (Nat × α)) (p : Nat) (v : α) (h : ∀ e ∈
 
 /-- on a hit at position `j` only the value at `j` changes -/
 theorem insertAdd_hit (al : List (Nat × α)) (p : Nat) (v : α) (j : Nat)
-    (h : posOf al p 0 = (j : Int)) :
+    (h : posOf (al.map (·.1)) p 0 = (j : Int)) :
     j < al.length ∧ (al.getD j (0, 0)).1 = p ∧
       insertAdd al p v = al.set j (p, (al.getD j (0, 0)).2 + v) := by
   induction al generalizing j with
   | nil => simp [posOf] at h
   | cons a t ih =>
     obtain ⟨k, x⟩ := a
-    unfold posOf at h
+    simp only [List.map_cons, posOf] at h
     by_cases hk : k = p
     · simp only [hk, if_true] at h
       have : j = 0 := by omega
@@ -107,13 +118,14 @@ theorem insertAdd_hit (al : List (Nat × α)) (p : Nat) (v : α) (j : Nat)
       simp [insertAdd]
     · simp only [hk, if_false] at h
       rw [posOf_shift] at h
-      by_cases h1 : posOf t p 0 = -1
+      by_cases h1 : posOf (t.map (·.1)) p 0 = -1
       · simp [h1] at h
       · simp only [h1, if_false] at h
-        have hr := posOf_range t p 0
+        have hr := posOf_range (t.map (·.1)) p 0
         rcases hr with h2 | h2
         · exact absurd h2 h1
-        · obtain ⟨j', hj'⟩ : ∃ j' : Nat, posOf t p 0 = (j' : Int) := ⟨(posOf t p 0).toNat, by omega⟩
+        · obtain ⟨j', hj'⟩ : ∃ j' : Nat, posOf (t.map (·.1)) p 0 = (j' : Int) :=
+            ⟨(posOf (t.map (·.1)) p 0).toNat, by omega⟩
           have hj : j = j' + 1 := by
             rw [hj'] at h; push_cast at h; omega
           subst hj
@@ -237,6 +249,401 @@ theorem assocOf_lookupSum (frac : α) (es al : List (Nat × α)) (q : Nat) :
     · subst hq; simp; ring
     · have : (e.1 == q) = false := by simp; exact fun h => hq h.symm
       simp [hq, this]
+
+/-! ### the array state represents the association list -/
+
+/-- `st` (arrays of the Python loop) represents `al`: keys/values in the first `len` slots, padding
+    after, `pix_check[p]` = slot of `p` or -1. -/
+structure Rep (P width : Nat) (st : UniqueState α) (al : List (Nat × α)) : Prop where
+  size : st.pixSize = al.length
+  le : al.length ≤ width
+  d2p : st.d2p = (al.map (·.1)).map Int.ofNat ++ List.replicate (width - al.length) (-1)
+  dw : st.dw = al.map (·.2) ++ List.replicate (width - al.length) 0
+  chkLen : st.pixCheck.length = P
+  chk : ∀ p < P, st.pixCheck.getD p (-1) = posOf (al.map (·.1)) p 0
+
+theorem rep_init (P width : Nat) :
+    Rep (α := α) P width
+      { pixCheck := List.replicate P (-1), pixSize := 0,
+        d2p := List.replicate width (-1), dw := List.replicate width 0 } [] := by
+  refine ⟨rfl, by simp, by simp, by simp, by simp, ?_⟩
+  intro p hp
+  simp [posOf, List.getD_eq_getElem?_getD, hp]
+
+theorem rep_step {P width : Nat} {st : UniqueState α} {al : List (Nat × α)} (frac : α)
+    (h : Rep P width st al) (p : Nat) (w : α) (hp : p < P) (hroom : al.length < width) :
+    Rep P width (uniqueStep frac st p w) (insertAdd al p (frac * w)) := by
+  have hchk := h.chk p hp
+  unfold uniqueStep
+  simp only [hchk]
+  rcases posOf_range (al.map (·.1)) p 0 with hm | ⟨h0, h1⟩
+  · -- miss: new slot at the end
+    have hneg : ¬ (0 : Int) ≤ posOf (al.map (·.1)) p 0 := by rw [hm]; omega
+    simp only [hneg, if_false]
+    have hmiss : ∀ e ∈ al, e.1 ≠ p := by
+      have := (posOf_miss_iff (al.map (·.1)) p 0).mp hm
+      intro e he
+      exact this e.1 (List.mem_map_of_mem he)
+    rw [insertAdd_miss al p _ hmiss]
+    obtain ⟨k, hk⟩ : ∃ k, width - al.length = k + 1 := ⟨width - al.length - 1, by omega⟩
+    have hk' : width - (al.length + 1) = k := by omega
+    have hlen1 : ((al.map (·.1)).map Int.ofNat).length = al.length := by simp
+    have hlen2 : (al.map (·.2)).length = al.length := by simp
+    refine ⟨by simp [h.size], by simp; omega, ?_, ?_, by simp [h.chkLen], ?_⟩
+    · rw [h.size, h.d2p, hk, List.set_append_right _ _ (by rw [hlen1]), hlen1, Nat.sub_self]
+      simp [hk', List.replicate_succ]
+    · unfold addAt
+      rw [h.size, h.dw, hk, List.set_append_right _ _ (by rw [hlen2]), hlen2, Nat.sub_self]
+      have : (al.map (·.2) ++ List.replicate (k + 1) (0 : α)).getD al.length 0 = 0 := by
+        rw [List.getD_eq_getElem?_getD, List.getElem?_append_right (by rw [hlen2])]
+        simp [hlen2]
+      rw [this]
+      simp [hk', List.replicate_succ]
+    · intro q hq
+      rw [List.map_append]
+      simp only [List.map_cons, List.map_nil]
+      rw [posOf_append_singleton]
+      show (st.pixCheck.set p (Int.ofNat st.pixSize)).getD q (-1) = _
+      by_cases hqp : q = p
+      · subst hqp
+        simp only [hm, if_true]
+        rw [List.getD_eq_getElem?_getD, List.getElem?_set_self (by rw [h.chkLen]; exact hq)]
+        simp [h.size]
+      · have hne : p ≠ q := fun hh => hqp hh.symm
+        rw [List.getD_eq_getElem?_getD, List.getElem?_set_ne hne, ← List.getD_eq_getElem?_getD,
+          h.chk q hq]
+        simp only [hne, if_false]
+        split
+        · next hh => exact hh
+        · rfl
+  · -- hit: add to the existing slot
+    have hpos : (0 : Int) ≤ posOf (al.map (·.1)) p 0 := by simpa using h0
+    simp only [hpos, if_true]
+    obtain ⟨j, hj⟩ : ∃ j : Nat, posOf (al.map (·.1)) p 0 = (j : Int) :=
+      ⟨(posOf (al.map (·.1)) p 0).toNat, by omega⟩
+    obtain ⟨hjl, hjk, hins⟩ := insertAdd_hit al p (frac * w) j hj
+    have hnm : ¬ ∀ e ∈ al, e.1 ≠ p := by
+      intro hall
+      have := (posOf_miss_iff (al.map (·.1)) p 0).mpr (by
+        intro k hk
+        obtain ⟨e, he, rfl⟩ := List.mem_map.mp hk
+        exact hall e he)
+      omega
+    have hkeys := keys_insertAdd_hit al p (frac * w) hnm
+    have hlen : (insertAdd al p (frac * w)).length = al.length := by
+      have := congrArg List.length hkeys
+      simpa using this
+    have hlen2 : (al.map (·.2)).length = al.length := by simp
+    refine ⟨by rw [hlen]; exact h.size, by rw [hlen]; exact h.le, ?_, ?_, h.chkLen, ?_⟩
+    · rw [hkeys, hlen]; exact h.d2p
+    · show addAt st.dw (posOf (al.map (·.1)) p 0).toNat (frac * w) = _
+      rw [hj, Int.toNat_natCast, hlen, hins, List.map_set]
+      unfold addAt
+      rw [h.dw, List.set_append_left _ _ (by rw [hlen2]; exact hjl)]
+      congr 2
+      rw [List.getD_eq_getElem?_getD, List.getElem?_append_left (by rw [hlen2]; exact hjl)]
+      simp [List.getD_eq_getElem?_getD, hjl]
+    · intro q hq
+      rw [hkeys]; exact h.chk q hq
+
+/-- the inner loops of one data pixel, on a flat list of mappings -/
+theorem rep_fold {P width : Nat} (frac : α) (es : List (Nat × α)) {st : UniqueState α}
+    {al : List (Nat × α)} (h : Rep P width st al) (hes : ∀ e ∈ es, e.1 < P)
+    (hroom : al.length + es.length ≤ width) :
+    Rep P width (es.foldl (fun st e => uniqueStep frac st e.1 e.2) st) (assocOf frac es al) := by
+  unfold assocOf
+  induction es generalizing st al with
+  | nil => exact h
+  | cons e es ih =>
+    simp only [List.foldl_cons]
+    have hstep := rep_step frac h e.1 e.2 (hes e List.mem_cons_self)
+      (by simp only [List.length_cons] at hroom; omega)
+    apply ih hstep (fun e' he' => hes e' (List.mem_cons_of_mem _ he'))
+    have : (insertAdd al e.1 (frac * e.2)).length ≤ al.length + 1 := by
+      have := assocOf_length_le frac [e] al
+      simpa [assocOf] using this
+    simp only [List.length_cons] at hroom
+    omega
+
+theorem uniqueRow_eq_fold (idx : List (List Int)) (sizes : List Nat) (wts : List (List α))
+    (P width : Nat) (frac : α) (start count : Nat) :
+    Impl.uniqueRow idx sizes wts P width frac start count
+      = (Spec.entries idx sizes wts start count).foldl (fun st e => uniqueStep frac st e.1 e.2)
+          { pixCheck := List.replicate P (-1), pixSize := 0,
+            d2p := List.replicate width (-1), dw := List.replicate width 0 } := by
+  unfold Impl.uniqueRow Spec.entries
+  rw [List.foldl_flatMap]
+  congr 1
+  funext st sub
+  rw [List.foldl_map]
+
+/-! ### outer loop over data pixels -/
+
+/-- first sub-pixel of data pixel `ip` -/
+def blockStart (subs : List Nat) (ip : Nat) : Nat :=
+  ((List.range ip).map fun i => subs.getD i 0 * subs.getD i 0).sum
+
+theorem blockStart_succ (subs : List Nat) (ip : Nat) :
+    blockStart subs (ip + 1) = blockStart subs ip + subs.getD ip 0 * subs.getD ip 0 := by
+  simp [blockStart, List.range_succ]
+
+/-- row `ip` of the three outputs -/
+def rowState (idx : List (List Int)) (sizes : List Nat) (wts : List (List α)) (P : Nat)
+    (subs : List Nat) (ip : Nat) : UniqueState α :=
+  Impl.uniqueRow idx sizes wts P (maxNat sizes * (maxNat subs * maxNat subs))
+    (Impl.subFraction (subs.getD ip 0)) (blockStart subs ip) (subs.getD ip 0 * subs.getD ip 0)
+
+theorem uniqueFrom_rows (n : Nat) (idx : List (List Int)) (sizes : List Nat) (wts : List (List α))
+    (P : Nat) (subs : List Nat) :
+    Impl.uniqueFrom n idx sizes wts P subs
+      = ((List.range n).map fun ip => (rowState idx sizes wts P subs ip).d2p,
+         (List.range n).map fun ip => (rowState idx sizes wts P subs ip).dw,
+         (List.range n).map fun ip => (rowState idx sizes wts P subs ip).pixSize) := by
+  unfold Impl.uniqueFrom
+  simp only
+  suffices hs : ∀ n, (List.range n).foldl
+      (fun (acc : (List (List Int) × List (List α) × List Nat) × Nat) ip =>
+        ((acc.1.1 ++ [(Impl.uniqueRow idx sizes wts P (maxNat sizes * (maxNat subs * maxNat subs))
+              (Impl.subFraction (subs.getD ip 0)) acc.2 (subs.getD ip 0 * subs.getD ip 0)).d2p],
+          acc.1.2.1 ++ [(Impl.uniqueRow idx sizes wts P (maxNat sizes * (maxNat subs * maxNat subs))
+              (Impl.subFraction (subs.getD ip 0)) acc.2 (subs.getD ip 0 * subs.getD ip 0)).dw],
+          acc.1.2.2 ++ [(Impl.uniqueRow idx sizes wts P (maxNat sizes * (maxNat subs * maxNat subs))
+              (Impl.subFraction (subs.getD ip 0)) acc.2 (subs.getD ip 0 * subs.getD ip 0)).pixSize]),
+         acc.2 + subs.getD ip 0 * subs.getD ip 0)) (([], [], []), 0)
+      = (((List.range n).map fun ip => (rowState idx sizes wts P subs ip).d2p,
+          (List.range n).map fun ip => (rowState idx sizes wts P subs ip).dw,
+          (List.range n).map fun ip => (rowState idx sizes wts P subs ip).pixSize),
+         blockStart subs n) by
+    rw [hs n]
+  intro n
+  induction n with
+  | zero => simp [blockStart]
+  | succ n ih =>
+    rw [List.range_succ, List.foldl_append, ih]
+    simp [rowState, blockStart_succ]
+
+/-! ### size of the arrays suffices -/
+
+theorem le_foldl_max (l : List Nat) (a : Nat) : a ≤ l.foldl max a := by
+  induction l generalizing a with
+  | nil => simp
+  | cons x l ih => simp only [List.foldl_cons]; exact le_trans (le_max_left a x) (ih _)
+
+theorem le_maxNat (l : List Nat) (x : Nat) (hx : x ∈ l) : x ≤ maxNat l := by
+  unfold maxNat
+  generalize (0 : Nat) = a
+  induction l generalizing a with
+  | nil => simp at hx
+  | cons y l ih =>
+    simp only [List.foldl_cons]
+    rcases List.mem_cons.mp hx with rfl | h
+    · exact le_trans (le_max_right a x) (le_foldl_max l _)
+    · exact ih h _
+
+theorem getD_le_maxNat (l : List Nat) (i : Nat) : l.getD i 0 ≤ maxNat l := by
+  rw [List.getD_eq_getElem?_getD]
+  cases h : l[i]? with
+  | none => simp
+  | some y => simpa using le_maxNat l y (List.mem_of_getElem? h)
+
+theorem entries_length_le (idx : List (List Int)) (sizes : List Nat) (wts : List (List α))
+    (start count : Nat) :
+    (Spec.entries idx sizes wts start count).length ≤ count * maxNat sizes := by
+  unfold Spec.entries
+  rw [List.length_flatMap]
+  have : ∀ x ∈ (List.range' start count).map
+      (fun sub => ((List.range (sizes.getD sub 0)).map fun c =>
+        (((idx.getD sub []).getD c 0).toNat, (wts.getD sub []).getD c 0)).length), x ≤ maxNat sizes := by
+    intro x hx
+    obtain ⟨sub, _, rfl⟩ := List.mem_map.mp hx
+    simpa using getD_le_maxNat sizes sub
+  have := List.sum_le_card_nsmul _ _ this
+  simpa using this
+
+theorem mem_entries (idx : List (List Int)) (sizes : List Nat) (wts : List (List α))
+    (start count : Nat) (e : Nat × α) (he : e ∈ Spec.entries idx sizes wts start count) :
+    ∃ sub c, start ≤ sub ∧ sub < start + count ∧ c < sizes.getD sub 0 ∧
+      e = (((idx.getD sub []).getD c 0).toNat, (wts.getD sub []).getD c 0) := by
+  unfold Spec.entries at he
+  simp only [List.mem_flatMap, List.mem_map, List.mem_range, List.mem_range'_1] at he
+  obtain ⟨sub, ⟨h1, h2⟩, c, hc, rfl⟩ := he
+  exact ⟨sub, c, h1, h2, hc, rfl⟩
+
+/-! ### reading the tables back -/
+
+theorem map_getD_range {β : Type} (l : List β) (d : β) :
+    (List.range l.length).map (fun k => l.getD k d) = l := by
+  apply List.ext_getElem
+  · simp
+  · intro k h1 h2
+    simp [List.getD_eq_getElem?_getD, h2]
+
+theorem denseRow_of_rep {P width : Nat} {st : UniqueState α} {al : List (Nat × α)}
+    (h : Rep P width st al) (p : Nat) :
+    Spec.denseRowOfUnique st.d2p st.dw st.pixSize p = lookupSum al p := by
+  unfold Spec.denseRowOfUnique lookupSum
+  rw [sumList_eq_sum, h.size]
+  have hread : ∀ k ∈ List.range al.length,
+      st.d2p.getD k (-1) = Int.ofNat (al.getD k (0, 0)).1 ∧ st.dw.getD k 0 = (al.getD k (0, 0)).2 := by
+    intro k hk
+    have hk' : k < al.length := List.mem_range.mp hk
+    rw [h.d2p, h.dw]
+    constructor
+    · rw [List.getD_eq_getElem?_getD, List.getElem?_append_left (by simpa using hk')]
+      simp [List.getD_eq_getElem?_getD, hk']
+    · rw [List.getD_eq_getElem?_getD, List.getElem?_append_left (by simpa using hk')]
+      simp [List.getD_eq_getElem?_getD, hk']
+  have h1 : (List.range al.length).filter (fun k => st.d2p.getD k (-1) == Int.ofNat p)
+      = (List.range al.length).filter (fun k => (al.getD k (0, 0)).1 == p) := by
+    apply List.filter_congr
+    intro k hk
+    rw [(hread k hk).1]
+    simp
+  rw [h1]
+  have h2 : ((List.range al.length).filter (fun k => (al.getD k (0, 0)).1 == p)).map
+        (fun k => st.dw.getD k 0)
+      = ((List.range al.length).filter (fun k => (al.getD k (0, 0)).1 == p)).map
+        (fun k => (al.getD k (0, 0)).2) := by
+    apply List.map_congr_left
+    intro k hk
+    exact (hread k (List.mem_filter.mp hk).1).2
+  rw [h2]
+  conv_rhs => rw [← map_getD_range al (0, 0)]
+  rw [List.filter_map, List.map_map]
+  rfl
+
+theorem keys_of_rep {P width : Nat} {st : UniqueState α} {al : List (Nat × α)}
+    (h : Rep P width st al) :
+    st.d2p.take st.pixSize = (al.map (·.1)).map Int.ofNat ∧
+    st.d2p.drop st.pixSize = List.replicate (width - st.pixSize) (-1) ∧
+    st.dw.drop st.pixSize = List.replicate (width - st.pixSize) 0 := by
+  rw [h.size, h.d2p, h.dw]
+  refine ⟨?_, ?_, ?_⟩
+  · rw [List.take_left' (by simp)]
+  · rw [List.drop_left' (by simp)]
+  · rw [List.drop_left' (by simp)]
+
+/-! ### composite statements used by Props/C06 -/
+
+theorem blockStart_mono (subs : List Nat) {a b : Nat} (h : a ≤ b) :
+    blockStart subs a ≤ blockStart subs b := by
+  induction b, h using Nat.le_induction with
+  | base => exact le_refl _
+  | succ b _ ih => rw [blockStart_succ]; omega
+
+theorem slimForSubSlim_length (subs : List Nat) :
+    (Spec.slimForSubSlim subs).length = blockStart subs subs.length := by
+  rw [slimForSubSlim_spec_eq_blocksOf, blocksOf_length]; rfl
+
+theorem getD_map_range {β : Type} (n : Nat) (f : Nat → β) (d : β) (i : Nat) (hi : i < n) :
+    ((List.range n).map f).getD i d = f i := by
+  simp [List.getD_eq_getElem?_getD, hi]
+
+/-- the mappings of data pixel `ip`, in loop order -/
+def blockEntries (idx : List (List Int)) (sizes : List Nat) (wts : List (List α)) (subs : List Nat)
+    (ip : Nat) : List (Nat × α) :=
+  Spec.entries idx sizes wts (blockStart subs ip) (subs.getD ip 0 * subs.getD ip 0)
+
+theorem rowState_rep (subs : List Nat) (idx : List (List Int)) (sizes : List Nat)
+    (wts : List (List α)) (P : Nat)
+    (hidx : ∀ sub < (Spec.slimForSubSlim subs).length, ∀ c < sizes.getD sub 0,
+      ((idx.getD sub []).getD c 0).toNat < P)
+    (ip : Nat) (hip : ip < subs.length) :
+    Rep P (maxNat sizes * (maxNat subs * maxNat subs)) (rowState idx sizes wts P subs ip)
+      (assocOf (Impl.subFraction (subs.getD ip 0)) (blockEntries idx sizes wts subs ip) []) := by
+  unfold rowState
+  rw [uniqueRow_eq_fold]
+  apply rep_fold _ _ (rep_init P _)
+  · intro e he
+    obtain ⟨sub, c, h1, h2, hc, rfl⟩ := mem_entries idx sizes wts _ _ e he
+    apply hidx sub _ c hc
+    rw [slimForSubSlim_length]
+    have := blockStart_mono subs (Nat.succ_le_of_lt hip)
+    rw [blockStart_succ] at this
+    omega
+  · simp only [List.length_nil, Nat.zero_add]
+    refine le_trans (entries_length_le idx sizes wts _ _) ?_
+    rw [Nat.mul_comm]
+    exact Nat.mul_le_mul_left _ (Nat.mul_le_mul (getD_le_maxNat subs ip) (getD_le_maxNat subs ip))
+
+/-- the block of sub-pixels of data pixel `ip` is where the slim table says `ip` -/
+theorem filter_slim_eq_block (subs : List Nat) (ip : Nat) (hip : ip < subs.length) :
+    (List.range (Spec.slimForSubSlim subs).length).filter
+        (fun sub => (Spec.slimForSubSlim subs).getD sub 0 == ip)
+      = List.range' (blockStart subs ip) (subs.getD ip 0 * subs.getD ip 0) := by
+  rw [slimForSubSlim_spec_eq_blocksOf, blocksOf_filter _ _ _ hip]
+  rfl
+
+/-- clause (e), dense part: reading row `ip` of the unique tables the way the w-tilde routines do
+    gives exactly row `ip` of `mapping_matrix_from`. -/
+theorem unique_dense_eq (subs : List Nat) (idx : List (List Int)) (sizes : List Nat)
+    (wts : List (List α)) (P : Nat)
+    (hidx : ∀ sub < (Spec.slimForSubSlim subs).length, ∀ c < sizes.getD sub 0,
+      ((idx.getD sub []).getD c 0).toNat < P)
+    (ip : Nat) (hip : ip < subs.length) (p : Nat) :
+    Spec.denseRowOfUnique
+        ((Impl.uniqueFrom subs.length idx sizes wts P subs).1.getD ip [])
+        ((Impl.uniqueFrom subs.length idx sizes wts P subs).2.1.getD ip [])
+        ((Impl.uniqueFrom subs.length idx sizes wts P subs).2.2.getD ip 0) p
+      = entry (Impl.mappingMatrix idx sizes wts P subs.length (Spec.slimForSubSlim subs)
+          (subs.map Impl.subFraction)) ip p := by
+  rw [uniqueFrom_rows]
+  simp only [getD_map_range _ _ _ _ hip]
+  rw [denseRow_of_rep (rowState_rep subs idx sizes wts P hidx ip hip), assocOf_lookupSum]
+  have hslim : ∀ s ∈ Spec.slimForSubSlim subs, s < subs.length := by
+    rw [slimForSubSlim_spec_eq_blocksOf]; exact blocksOf_mem_lt _ _
+  rw [mappingMatrix_entry idx sizes wts P subs.length _ _ hslim hidx, filter_slim_eq_block subs ip hip]
+  simp only [lookupSum, List.filter_nil, List.map_nil, List.sum_nil, zero_add]
+  unfold blockEntries Spec.entries
+  rw [sum_filter_flatMap]
+  congr 1
+  apply List.map_congr_left
+  intro sub _
+  rw [List.filter_map, List.map_map, ← List.sum_map_mul_left]
+  have hf : (subs.map Impl.subFraction).getD ip (0 : α) = Impl.subFraction (subs.getD ip 0) := by
+    simp [List.getD_eq_getElem?_getD, hip]
+  rw [hf]
+  rfl
+
+/-- clause (e), key part: the first `pix_lengths[ip]` entries of row `ip` are pairwise distinct,
+    are exactly the source pixels data pixel `ip` maps to, and the rest of both rows is padding. -/
+theorem unique_keys (subs : List Nat) (idx : List (List Int)) (sizes : List Nat)
+    (wts : List (List α)) (P : Nat)
+    (hidx : ∀ sub < (Spec.slimForSubSlim subs).length, ∀ c < sizes.getD sub 0,
+      ((idx.getD sub []).getD c 0).toNat < P)
+    (ip : Nat) (hip : ip < subs.length) :
+    ∃ keys : List Nat,
+      keys.Nodup ∧
+      (∀ q, q ∈ keys ↔ q ∈ (blockEntries idx sizes wts subs ip).map (·.1)) ∧
+      (Impl.uniqueFrom subs.length idx sizes wts P subs).2.2.getD ip 0 = keys.length ∧
+      ((Impl.uniqueFrom subs.length idx sizes wts P subs).1.getD ip []).take keys.length
+        = keys.map Int.ofNat ∧
+      (∀ x ∈ ((Impl.uniqueFrom subs.length idx sizes wts P subs).1.getD ip []).drop keys.length,
+        x = -1) ∧
+      (∀ x ∈ ((Impl.uniqueFrom subs.length idx sizes wts P subs).2.1.getD ip []).drop keys.length,
+        x = 0) := by
+  rw [uniqueFrom_rows]
+  simp only [getD_map_range _ _ _ _ hip]
+  have hrep := rowState_rep subs idx sizes wts P hidx ip hip
+  set al := assocOf (Impl.subFraction (subs.getD ip 0) : α) (blockEntries idx sizes wts subs ip) []
+  obtain ⟨h1, h2, h3⟩ := keys_of_rep hrep
+  refine ⟨al.map (·.1), assocOf_nodup _ _ [] (by simp), ?_, by simp [hrep.size], ?_, ?_, ?_⟩
+  · intro q
+    have := assocOf_mem_keys (Impl.subFraction (subs.getD ip 0) : α)
+      (blockEntries idx sizes wts subs ip) [] q
+    rw [this]
+    simp
+  · rw [hrep.size] at h1; simpa using h1
+  · intro x hx
+    rw [hrep.size] at h2
+    simp only [List.length_map] at hx
+    rw [h2] at hx
+    exact (List.mem_replicate.mp hx).2
+  · intro x hx
+    rw [hrep.size] at h3
+    simp only [List.length_map] at hx
+    rw [h3] at hx
+    exact (List.mem_replicate.mp hx).2
 
 end unique
 end Model
